@@ -1,5 +1,7 @@
 package bloomsearch
 
+import "github.com/tidwall/gjson"
+
 // ---------------------------------------------------------------------------------------------
 // C02 — exact at row level, block-granular for prefilters. Row level: the three matcher harnesses
 // of c01_matcher.go assert both directions (match <=> documented semantics) and are registered
@@ -95,3 +97,65 @@ func H_C02_prefilters_are_strict_and_block_granular() {
 	}
 	vpAssert(len(out) == want, "C02: FilterDataBlocks kept a block its prefilter rejects")
 }
+
+// Queries whose verdict does not depend on the row at all — no conditions (everything), an empty
+// AND (everything), an empty OR (nothing), a regex on the empty field path (nothing) — and two
+// ordinary ones, through the REAL Query pipeline with the real compile step, the real block scan
+// and the real matcher: a block that reaches the scan (here: files whose filters cannot rule
+// anything out) delivers every stored row or none, never rows the query does not accept.
+//
+//vp:override (*bs.BloomSearchEngine).evaluateBloomFilters=vpQueryVerdictStub
+//vp:override (*bs.blockFilterCursor).filtersFor=vpQueryFiltersFor
+//vp:override (*bs.blockFilterCursor).release=vpCursorReleaseNop
+//vp:override bs.readPooledBlockRowData=vpReadRowDataOK
+//vp:override bs.materializeRow=vpMaterializeOK
+//vp:override (*bs.compiledRowMatcher).matchRowBytes=vpMatchRowAX
+//vp:maxsteps 400000
+//vp:bounds the real Query with all its goroutines, MaxQueryConcurrency 1..2, 1 file of 1..2 blocks holding the row {"a":"x"} each (matchRowBytes is entered through a stand-in that repeats its constant-verdict gate and hands the real match the row as an abstract JSON value — the executor's gjson model parses abstract documents only), every file/block filter verdict "cannot rule out"; query drawn from: no conditions, And(), Or(), FieldRegex("", x), Field(a), Field(zz), Token(x) combined with FieldRegex("", x)
+func H_C02_rows_are_verified_even_when_the_query_has_no_row_conditions() {
+	w := vpNewWorld()
+	w.openAlways = true
+	nBlocks := 1 + nondetChoice(2)
+	vpQuerySetupFixed(w, 1, nBlocks)
+	b := vpQueryEngine(w, 1+nondetChoice(2))
+	vpScanData = []byte{9, 0, 0, 0, '{', '"', 'a', '"', ':', '"', 'x', '"', '}'}
+	var q *Query
+	want := 0
+	switch nondetChoice(7) {
+	case 0:
+		q, want = NewQuery().Build(), nBlocks
+	case 1:
+		q, want = NewQuery().Match(And()).Build(), nBlocks
+	case 2:
+		q = NewQuery().Match(Or()).Build()
+	case 3:
+		q = NewQuery().MatchRegex(FieldRegex("", "x")).Build()
+	case 4:
+		q, want = NewQuery().Field("a").Build(), nBlocks
+	case 5:
+		q = NewQuery().Field("zz").Build()
+	default:
+		q = NewQuery().Token("x").MatchRegex(FieldRegex("", "x")).Build()
+	}
+	r, err := b.Query(vpNewCtx(nil), q)
+	vpAssert(err == nil && r != nil, "C20: Query failed on a valid query")
+	got := 0
+	for r.Next() {
+		got++
+		vpAssert(got <= nBlocks, "C02: more rows returned than stored")
+	}
+	vpAssert(r.Err() == nil, "C20: a fault-free query reported an error")
+	vpAssert(got >= want, "C01: a stored row that satisfies the query was not returned")
+	vpAssert(got <= want, "C02: a row that does not satisfy the query was returned (row verification skipped)")
+}
+
+func vpMatchRowAX(m *compiledRowMatcher, rowBytes []byte, scratch *rowMatchScratch) bool {
+	if m.matchesAll {
+		return true
+	}
+	if m.neverMatches {
+		return false
+	}
+	return m.match(vpToGJSON(&vpNode{Kind: 1, Kids: []*vpNode{{Key: "a", Type: gjson.String, Text: "x"}}}), scratch)
+}
+
